@@ -115,10 +115,18 @@ def oracle(chk, p, r, m):
         bad = None
         for o in link["inputs"]:
             ps = prod.get(o, [])
+            if len(ps) > 1:
+                # one path written by several statements is C06's subject (known findings: non-shareable rule + the same source in two
+                # modules of one build; colliding custom outs): which statement feeds this link cannot be told, the build is skipped here
+                bad = "several"
+                break
             if len(ps) != 1 or len(ps[0]["inputs"]) != 1:
                 bad = f"object {o} has {len(ps)} producing statements"
                 break
             got.append((ps[0]["inputs"][0], ps[0]["rule"], o))
+        if bad == "several":
+            chk.count("skipped:object-with-several-producers (C06)")
+            continue
         if bad:
             chk.fail_oracle("link:object-producer", f"{key}: {bad}", {"project": p, "build": list(key)})
             continue
